@@ -1073,4 +1073,266 @@ theorem no_file_is_error (env : Env) (req : Req) (s : Sys)
     have := this req.parts 0 ⟨s.db.uploads, s.fs, none, 0, [], [], none⟩ hn rfl
     unfold run0 at htx
     rw [this] at htx; cases htx
+/-- benchmark lines held by a transaction (sent or pending), in insertion order -/
+def txLines (t : Tx) : List Bytes := (t.txRec ++ t.pendRec).flatMap (·.lines)
+
+/-- `lastResult != nil` implies a pending row to append to -/
+def LastOk (t : Tx) : Prop := t.last.isSome → t.pendRec ≠ []
+
+theorem appendLine_lines (rows : List RRow) (l : Bytes) (h : rows ≠ []) :
+    (appendLine rows l).flatMap (·.lines) = rows.flatMap (·.lines) ++ [l] := by
+  induction rows with
+  | nil => exact absurd rfl h
+  | cons r rs ih =>
+    cases rs with
+    | nil => simp [appendLine]
+    | cons r2 rs2 =>
+      simp only [appendLine, List.flatMap_cons] at ih ⊢
+      rw [ih (by simp)]
+      simp
+
+theorem flush_lines {t t' : Tx} (h : t.flush = some t') : txLines t' = txLines t ∧ LastOk t' := by
+  unfold Tx.flush at h
+  split at h
+  · simp at h
+  · simp at h; subst h
+    exact ⟨by simp [txLines], by intro h; simp at h⟩
+
+theorem insertLabel_lines {t t' : Tx} {k : Bytes} (h : t.insertLabel k = some t') (hl : LastOk t) :
+    txLines t' = txLines t ∧ LastOk t' := by
+  unfold Tx.insertLabel at h
+  split at h
+  · simp [Option.map_eq_some_iff] at h
+    obtain ⟨a, ha, rfl⟩ := h
+    have := flush_lines ha
+    exact ⟨by simpa [txLines] using this.1, by simpa [LastOk] using this.2⟩
+  · simp at h; subst h
+    exact ⟨by simp [txLines], by simpa [LastOk] using hl⟩
+
+theorem insertLabels_lines {t t' : Tx} {ks : List Bytes} (h : t.insertLabels ks = some t') (hl : LastOk t) :
+    txLines t' = txLines t ∧ LastOk t' := by
+  induction ks generalizing t with
+  | nil => simp [Tx.insertLabels] at h; subst h; exact ⟨rfl, hl⟩
+  | cons k ks ih =>
+    simp only [Tx.insertLabels] at h
+    split at h
+    · simp at h
+    · rename_i t1 h1
+      have a := insertLabel_lines h1 hl
+      have b := ih h a.2
+      exact ⟨b.1.trans a.1, b.2⟩
+
+theorem insertRecordNew_lines {t t' : Tx} {r : Res} (h : t.insertRecordNew r = some t') :
+    txLines t' = txLines t ++ [r.line] ∧ LastOk t' := by
+  unfold Tx.insertRecordNew at h
+  simp only at h
+  split at h
+  · simp at h
+  · rename_i t2 h2
+    simp at h; subst h
+    have := insertLabels_lines h2 (by intro _; simp)
+    refine ⟨?_, by simpa [LastOk] using this.2⟩
+    have e := this.1
+    simp only [txLines] at e ⊢
+    rw [e]; simp
+
+theorem insertRecord_lines {t t' : Tx} {r : Res} (h : t.insertRecord r = some t') (hl : LastOk t) :
+    txLines t' = txLines t ++ [r.line] ∧ LastOk t' := by
+  unfold Tx.insertRecord at h
+  split at h
+  · rename_i ll ln hlast
+    split at h
+    · simp at h; subst h
+      have hne : t.pendRec ≠ [] := hl (by simp [hlast])
+      refine ⟨?_, ?_⟩
+      · simp only [txLines, List.flatMap_append]
+        rw [appendLine_lines _ _ hne]; simp
+      · intro _
+        simp only
+        cases hp : t.pendRec with
+        | nil => exact absurd hp hne
+        | cons a as => cases as <;> simp [appendLine]
+    · exact insertRecordNew_lines h
+  · exact insertRecordNew_lines h
+
+theorem insertRecords_lines {t t' : Tx} {rs : List Res} (h : t.insertRecords rs = some t') (hl : LastOk t) :
+    txLines t' = txLines t ++ rs.map (·.line) ∧ LastOk t' := by
+  induction rs generalizing t with
+  | nil => simp [Tx.insertRecords] at h; subst h; exact ⟨by simp, hl⟩
+  | cons r rs ih =>
+    simp only [Tx.insertRecords] at h
+    split at h
+    · simp at h
+    · rename_i t1 h1
+      have a := insertRecord_lines h1 hl
+      have b := ih h a.2
+      exact ⟨by rw [b.1, a.1]; simp, b.2⟩
+
+theorem readResults_lines (perm : Labels) (lines : List Bytes) (labels : Labels) :
+    (readResults perm lines labels).map (·.line) = lines.filter isResultLine := by
+  induction lines generalizing labels with
+  | nil => simp [readResults]
+  | cons l rest ih =>
+    simp only [readResults]
+    cases hkv : parseKV l with
+    | some kv =>
+      obtain ⟨k, v⟩ := kv
+      simp only []
+      have : isResultLine l = false := by simp [isResultLine, hkv]
+      split
+      · rw [ih]; simp [this]
+      · split
+        · rw [ih]; simp [this]
+        · rw [ih]; simp [this]
+    | none =>
+      simp only []
+      cases hb : benchName l with
+      | some name => simp [isResultLine, hkv, hb, ih]
+      | none =>
+        simp only []
+        have : isResultLine l = false := by simp [isResultLine, hkv, hb]
+        rw [ih]; simp [this]
+
+/-- the benchmark lines of a file -/
+def fileLines (content : Bytes) : List Bytes := (splitLines content).filter isResultLine
+
+theorem indexFile_lines (env : Env) (f : Option Fault) (r : Run) (t : Tx) (x : FileIn)
+    (h : (indexFile env f r t x).2.2 = none) (hl : LastOk t) :
+    txLines (indexFile env f r t x).2.1 = txLines t ++ fileLines x.content ∧ LastOk (indexFile env f r t x).2.1 := by
+  unfold indexFile at h ⊢
+  simp only at h ⊢
+  split at h
+  · simp at h
+  · split at h
+    · simp [failFile] at h
+    · split at h
+      · simp [failFile] at h
+      · split at h
+        · simp [failFile] at h
+        · rename_i t' ht'
+          have := insertRecords_lines ht' hl
+          rw [readResults_lines] at this
+          split at h
+          · simp [failFile] at h
+          · split at h
+            · simp [failFile] at h
+            · split at h
+              · simp at h
+              · rw [if_neg (by assumption), if_neg (by assumption), if_neg (by assumption),
+                  if_neg (by assumption), if_neg (by assumption), if_neg (by assumption)]
+                exact this
+
+def partsLines : List Part → List Bytes
+  | [] => []
+  | Part.field _ :: ps => partsLines ps
+  | Part.file _ content _ _ :: ps => fileLines content ++ partsLines ps
+
+theorem runParts_lines (env : Env) (f : Option Fault) (ps : List Part) (i : Nat) (r : Run)
+    (h : (runParts env f ps i r).2 = none) (hl : ∀ t, r.tx = some t → LastOk t) :
+    ∀ t', (runParts env f ps i r).1.tx = some t' →
+      LastOk t' ∧ txLines t' = (match r.tx with | some t => txLines t | none => []) ++ partsLines ps := by
+  induction ps generalizing i r with
+  | nil =>
+    simp only [runParts]
+    intro t' ht'
+    rw [ht']; exact ⟨hl t' ht', by simp [partsLines]⟩
+  | cons p ps ih =>
+    cases p with
+    | field name =>
+      simp only [runParts] at h ⊢
+      split at h
+      · rename_i hn
+        rw [if_pos hn]
+        simpa [partsLines] using ih _ _ h hl
+      · simp at h
+    | file fname content cut chunks =>
+      have key : ∀ (r1 : Run) (t : Tx), LastOk t →
+          let res := indexFile env f r1 t ⟨i, fname, content, cut, chunks⟩
+          let r2 : Run := { res.1 with tx := some res.2.1 }
+          let out := match res.2.2 with
+            | some e => (r2, some e)
+            | none => runParts env f ps (i + 1) { r2 with fileids := r2.fileids ++ [(⟨t.id, i⟩ : Path)] }
+          out.2 = none → ∀ t', out.1.tx = some t' →
+            LastOk t' ∧ txLines t' = txLines t ++ partsLines (Part.file fname content cut chunks :: ps) := by
+        intro r1 t hlt res r2 out hout
+        cases he : res.2.2 with
+        | some e => simp [out, he] at hout
+        | none =>
+          have h1 := indexFile_lines env f r1 t ⟨i, fname, content, cut, chunks⟩ he hlt
+          have hout' : (runParts env f ps (i + 1) { r2 with fileids := r2.fileids ++ [(⟨t.id, i⟩ : Path)] }).2 = none := by
+            simpa [out, he] using hout
+          have h2 := ih _ _ hout' (by intro t0 ht0; simp [r2] at ht0; subst ht0; exact h1.2)
+          intro t' ht'
+          have ht'' : (runParts env f ps (i + 1) { r2 with fileids := r2.fileids ++ [(⟨t.id, i⟩ : Path)] }).1.tx = some t' := by
+            simpa [out, he] using ht'
+          have := h2 t' ht''
+          refine ⟨this.1, ?_⟩
+          rw [this.2]
+          simp only [r2, partsLines]
+          rw [h1.1]; simp
+      simp only [runParts] at h ⊢
+      cases htx : r.tx with
+      | some t => rw [htx] at h; exact key r t (hl t htx) h
+      | none =>
+        rw [htx] at h
+        simp only [] at h ⊢
+        cases hal : allocId env.day r.uploads with
+        | none => rw [hal] at h; simp at h
+        | some k =>
+          rw [hal] at h
+          have := key ⟨r.uploads ++ [k], r.fs, none, r.opc, r.trace, r.fileids, r.inprog⟩ { id := k }
+            (by intro h; simp at h) h
+          intro t' ht'
+          have h3 := this t' ht'
+          refine ⟨h3.1, ?_⟩
+          rw [h3.2]
+          simp [txLines]
+theorem results_lines_of (rows : List RRow) (k : UKey) (h : ∀ row ∈ rows, row.up = k) :
+    (((rows.flatMap fun r => r.lines.map fun l => (r, l)).filter fun x => x.1.up == k).map (·.2)) =
+      rows.flatMap (·.lines) := by
+  induction rows with
+  | nil => rfl
+  | cons r rs ih =>
+    simp only [List.flatMap_cons, List.filter_append, List.map_append]
+    rw [ih (fun row hr => h row (List.mem_cons_of_mem _ hr))]
+    congr 1
+    have hk := h r (by simp)
+    rw [List.filter_eq_self.mpr (by intro x hx; simp at hx; obtain ⟨_, _, rfl⟩ := hx; simp [hk])]
+    simp only [List.map_map]
+    have : ((fun x : RRow × Bytes => x.snd) ∘ fun l => (r, l)) = id := by funext l; rfl
+    rw [this]; simp
+
+theorem results_none_of (rows : List RRow) (k : UKey) (h : ∀ row ∈ rows, row.up ≠ k) :
+    ((rows.flatMap fun r => r.lines.map fun l => (r, l)).filter fun x => x.1.up == k) = [] := by
+  rw [List.filter_eq_nil_iff]
+  intro x hx
+  simp at hx
+  obtain ⟨row, hrow, _, _, rfl⟩ := hx
+  simpa using h row hrow
+
+theorem success_records (env : Env) (req : Req) (s : Sys) (w : WfSys s) (k : UKey) (fids : List Path)
+    (h : (processUpload env req s).resp = .ok (k, fids)) :
+    ((processUpload env req s).sys.db.queryUpload k).map (·.2) = partsLines req.parts ∧
+      k ∉ s.db.uploads ∧ (processUpload env req s).alloc = some k := by
+  rcases processUpload_cases env req s with ⟨e, h'⟩ | ⟨t, t', h2, _, htx, hfl, h'⟩
+  · rw [h'] at h; simp [abortOutcome] at h
+  · rw [h'] at h ⊢
+    simp at h
+    obtain ⟨rfl, _⟩ := h
+    rcases run0_step env req s with ⟨h1, _, _⟩ | ⟨t0, h1, hal, _, _, hrows⟩
+    · rw [h1] at htx; cases htx
+    · rw [h1] at htx; cases htx
+      have hfresh := allocId_fresh hal
+      have hl := runParts_lines env req.fault req.parts 0 ⟨s.db.uploads, s.fs, none, 0, [], [], none⟩ h2
+        (by intro t ht; simp at ht) t h1
+      have hfr := flush_rows hfl hrows
+      have hfl2 := flush_lines hfl
+      refine ⟨?_, hfresh, rfl⟩
+      simp only [DB.queryUpload, DB.results, List.flatMap_append, List.filter_append, List.map_append]
+      rw [results_none_of s.db.records t.id (fun row hr hk => hfresh (hk ▸ w.recs row hr))]
+      rw [results_lines_of t'.txRec t.id (fun row hr => by
+        have := hfr.1 row (by simp [hr]); rw [this, flush_id hfl])]
+      have e1 : txLines t' = t'.txRec.flatMap (·.lines) := by simp [txLines, hfr.2.1]
+      rw [← e1, hfl2.1, hl.2]
+      simp
 end C20
